@@ -8,6 +8,6 @@ Definition bad_hist : list step := [Put 0 k12 v40; Snap 0; SetVer 1 true; Put 1 
 
 Lemma version_upgrade_refuted :
   frozen_parents bad_hist = true /\
-  view blake2b_256 false (run blake2b_256 false false false bad_hist init_state) 0
-    <> view blake2b_256 false (run blake2b_256 false false false (firstn 3 bad_hist) init_state) 0.
+  view blake2b_256 false (run blake2b_256 false false bad_hist init_state) 0
+    <> view blake2b_256 false (run blake2b_256 false false (firstn 3 bad_hist) init_state) 0.
 Proof. vm_compute. split; [reflexivity | intro E; discriminate E]. Qed.
